@@ -12,7 +12,7 @@ with open(os.path.join(HERE, "latex682.json")) as _f:
     LATEX = json.load(_f)          # command text -> code points (snapshot of the documented table)
 
 PIECES = {"x": "R", "A": "in", "B": "t", "M": "mathbb", "p": "pagenumber", "1": "1", "sp": " ", "^": "^", "_": "_",
-          ">": ">", "<": "<", "=": "=", "nl": "\n", "bs": "\\", "G": "{R}", "E": "{}", ".": ".", "T": "\\totalpage", "F": "\\pagefield"}
+          ">": ">", "<": "<", "=": "=", "nl": "\n", "bs": "\\", "G": "{R}", "E": "{}", "H": "{\\in}", ".": ".", "T": "\\totalpage", "F": "\\pagefield"}
 
 
 def concretise(syms, kcmd=None):
@@ -50,10 +50,38 @@ def run_batch(batch):
     import rtflite as rtf
     from rtfreader import parse
     items = batch["items"]
-    texts = ["%04d|" % k + concretise(it["inp"], it.get("kcmd")) for k, it in enumerate(items)]
-    df = pl.DataFrame({"c": texts}, schema={"c": pl.Utf8})
-    body = rtf.RTFBody(text_convert=[[bool(it["conv"])] for it in items], text_justification="l")
-    doc = rtf.RTFDocument(df=df, rtf_body=body, rtf_page=rtf.RTFPage(nrow=len(items) + 10), rtf_title=None, rtf_column_header=[])
+    layout = batch.get("layout")
+    if not layout:
+        texts = ["%04d|" % k + concretise(it["inp"], it.get("kcmd")) for k, it in enumerate(items)]
+        df = pl.DataFrame({"c": texts}, schema={"c": pl.Utf8})
+        body = rtf.RTFBody(text_convert=[[bool(it["conv"])] for it in items], text_justification="l")
+        doc = rtf.RTFDocument(df=df, rtf_body=body, rtf_page=rtf.RTFPage(nrow=len(items) + 10), rtf_title=None, rtf_column_header=[])
+    else:
+        # a five-column frame with one grouping column (removed from the display) and text_convert given as a
+        # pattern over the ORIGINAL columns that is narrower than the frame (recycled): layout = {by, gpos, pat}
+        ncols, g, pat = 5, layout["gpos"], layout["pat"]
+        conv_col = [bool(pat[j % len(pat)]) for j in range(ncols)]
+        dcols = [j for j in range(ncols) if j != g]
+        queues = {True: [k for k, it in enumerate(items) if it["conv"]], False: [k for k, it in enumerate(items) if not it["conv"]]}
+        per = {v: max(1, sum(1 for j in dcols if conv_col[j] == v)) for v in (True, False)}
+        nrows = max(1, max((len(queues[v]) + per[v] - 1) // per[v] for v in (True, False) if any(conv_col[j] == v for j in dcols)))
+        data = {"c%d" % j: [] for j in range(ncols)}
+        for r in range(nrows):
+            for j in range(ncols):
+                if j == g:
+                    data["c%d" % j].append("grp")
+                elif queues[conv_col[j]]:
+                    k = queues[conv_col[j]].pop(0)
+                    data["c%d" % j].append("%04d|" % k + concretise(items[k]["inp"], items[k].get("kcmd")))
+                else:
+                    data["c%d" % j].append("pad")
+        df = pl.DataFrame(data, schema={k: pl.Utf8 for k in data})
+        bk = {"text_convert": [list(map(bool, pat))], "text_justification": "l"}
+        if layout["by"] == "subline":
+            bk["subline_by"] = ["c%d" % g]
+        else:
+            bk["page_by"] = ["c%d" % g]
+        doc = rtf.RTFDocument(df=df, rtf_body=rtf.RTFBody(**bk), rtf_page=rtf.RTFPage(nrow=nrows + 10), rtf_title=None, rtf_column_header=[])
     out = []
     try:
         text = doc.rtf_encode()
@@ -64,8 +92,10 @@ def run_batch(batch):
     d = parse(text)
     cells = {}
     for b in d.all_blocks():
-        if b.kind == "row" and len(b.cells) == 1:
-            evs = b.cells[0].events
+        if b.kind != "row":
+            continue
+        for cell in b.cells:
+            evs = cell.events
             head = "".join(e[1] for e in evs[:5] if e[0] == "c")
             if len(head) == 5 and head[4] == "|" and head[:4].isdigit():
                 cells[int(head[:4])] = norm_events(evs[5:])
